@@ -16,16 +16,22 @@ RootOpts == {Bd(1), Bd(13), Cd(1), Dd(1), Dd(5)}
 RootPairs == UNION {{<<x, y>> : y \in {z \in RootOpts : z.name # x.name}} : x \in RootOpts}
 RootTriples == UNION {UNION {{<<x, y, z>> : z \in {w \in RootOpts : w.name # x.name /\ w.name # y.name}} : y \in {w \in RootOpts : w.name # x.name}} : x \in RootOpts}
 \* full family: also three root declarations, and a dependencyManagement entry for d on the root
-RootLists == IF Family = "full" THEN UNION {{l, l \o <<[Dd(5) EXCEPT !.mgmt = TRUE]>>} : l \in RootPairs \cup RootTriples} ELSE RootPairs
-COpts == {<<>>, <<Bd(1)>>, <<Bd(13)>>, <<Dd(1)>>, <<Dd(5)>>} \cup (IF Family = "full" THEN {<<[Dd(5) EXCEPT !.excl = <<"g1:c">>]>>, <<[Bd(13) EXCEPT !.scope = "test"]>>} ELSE {})
-BOpts == {<<>>, <<Dd(1)>>, <<Dd(5)>>, <<Cd(1)>>} \cup (IF Family = "full" THEN {<<Dd(1), Cd(1)>>} ELSE {})
+RootLists == IF Family = "full" THEN UNION {{l, l \o <<[Dd(5) EXCEPT !.mgmt = TRUE]>>, l \o <<[Bd(7) EXCEPT !.mgmt = TRUE]>>} : l \in RootPairs \cup RootTriples} ELSE RootPairs
+COpts == {<<>>, <<Bd(1)>>, <<Bd(13)>>, <<Dd(1)>>, <<Dd(5)>>}
+         \cup (IF Family = "full" THEN {<<[Dd(5) EXCEPT !.excl = <<"g1:c">>]>>, <<[Bd(13) EXCEPT !.scope = "test"]>>,
+                                        <<[Dd(1) EXCEPT !.typ = "war"]>>,                 \* war-typed: d 1.0 is not traversed
+                                        <<[Bd(13) EXCEPT !.excl = <<"g1:*">>]>>} ELSE {}) \* everything of the group excluded below b
+BOpts == {<<>>, <<Dd(1)>>, <<Dd(5)>>, <<Cd(1)>>}
+         \cup (IF Family = "full" THEN {<<Dd(1), Cd(1)>>, <<[Dd(5) EXCEPT !.cls = "sources"]>>,   \* another artifact key of d
+                                        <<[Dd(1) EXCEPT !.opt = TRUE]>>} ELSE {})               \* optional below the root: not followed
 DOpts == {<<>>, <<Cd(1)>>}
 UArt(name, g, a, vs) == [name |-> name, g |-> g, a |-> a, versions |-> vs]
 UVer(v, deps) == [v |-> v, deps |-> deps]
-Universes == {<< UArt("g1:b", "g1", "b", <<UVer(1, b1), UVer(6, b6), UVer(7, b7)>>), UArt("g1:c", "g1", "c", <<UVer(1, c1)>>),
-                 UArt("g1:d", "g1", "d", <<UVer(1, d1), UVer(5, <<>>)>>), UArt("g0:root", "g0", "root", <<UVer(1, rl)>>) >> :
-               rl \in RootLists, c1 \in COpts, b1 \in BOpts, b6 \in (IF Family = "full" THEN BOpts ELSE {<<>>, <<Dd(5)>>}), b7 \in BOpts, d1 \in DOpts}
-Init == \E u \in Universes : MRInit(u)
+Univ(rl, c1, b1, b6, b7, d1) == << UArt("g1:b", "g1", "b", <<UVer(1, b1), UVer(6, b6), UVer(7, b7)>>), UArt("g1:c", "g1", "c", <<UVer(1, c1)>>),
+                                    UArt("g1:d", "g1", "d", <<UVer(1, d1), UVer(5, <<>>)>>), UArt("g0:root", "g0", "root", <<UVer(1, rl)>>) >>
+\* nested quantifiers, not one set of universes: TLC enumerates the initial states lazily (several hundred thousand large records)
+Init == \E rl \in RootLists, c1 \in COpts, b1 \in (IF Family = "full" THEN {<<>>, <<Dd(1)>>, <<[Dd(1) EXCEPT !.opt = TRUE]>>} ELSE BOpts),
+           b6 \in (IF Family = "full" THEN BOpts ELSE {<<>>, <<Dd(5)>>}), b7 \in BOpts, d1 \in DOpts : MRInit(Univ(rl, c1, b1, b6, b7, d1))
 Next == MRNext
 Emit == (phase \in {"done", "fatal"}) =>
           CSVWrite("%1$s", <<ToJson([universe |-> U, root |-> Root, softonly |-> FALSE, attempts |-> attempt,
